@@ -229,6 +229,22 @@ def observe(w):
 M_IBGP = session_messages(remote_as=65001)
 
 
+def impl_fingerprint(w):
+    """what the protocol object remembers (every dict / list / set attribute except the counters): two histories are merged only
+    if the dictionary model AND this agree - a table that is stale behind an unchanged REST view keeps its history apart"""
+    import hashlib
+    p = w.fsm.protocol
+    if p is None:
+        return None
+    skip = ('msg_sent_stat', 'msg_recv_stat', 'send_version', 'receive_version')
+    items = []
+    for k, v in sorted(vars(p).items()):
+        if k in skip or not isinstance(v, (dict, list, set, tuple)):
+            continue
+        items.append((k, repr(W._summ(v))))
+    return hashlib.sha1(repr(items).encode()).hexdigest()[:16]
+
+
 def run_history(group, hist):
     """returns (violations at the last step, model key, exceptions)"""
     global M
@@ -291,7 +307,7 @@ def run_history(group, hist):
                     viol.append(('C19|%s version of %s changed by %+d instead of %+d after %s' % (
                         'received' if side == 'in' else 'sent', fam, got, want, cls),
                         {'history': list(hist)}))
-    return viol, model.key(), list(w.exceptions)
+    return viol, (model.key(), impl_fingerprint(w)), list(w.exceptions)
 
 
 def expand(args):
@@ -314,7 +330,7 @@ def run(tier, seed):
     samples = []
     levels = {}
     for group in ('ipv4', 'flowspec', 'vpn', 'mixed', 'ibgp'):
-        seen = {Model().key(): ()}
+        seen = {(Model().key(), None): ()}
         frontier = [()]
         for d in range(depth[group]):
             res = explore.pmap(expand, [(group, h) for h in frontier])
